@@ -81,6 +81,9 @@ func (c *crashExec) issuedNow() [][]issued {
 func (c *crashExec) take(ev *simrt.FSEvent, torn int) {
 	x := c.x
 	stale := len(c.stale) > 0
+	if c.prop == "C07" && x.g != nil && x.g.H != nil && len(x.g.H.VerifStaleTail()) > 0 {
+		stale = true // a file is being rewritten in place and not yet truncated to its write head
+	}
 	if torn >= 0 && c.preSize != nil && ev.Off >= 0 && ev.Off < c.preSize[ev.Path] {
 		stale = true // this very write is an in-place relocation, partially applied
 	}
